@@ -1,7 +1,9 @@
 //! C16 (end-to-end part): command line > test case > document defaults > format default,
 //! observed on the behaviour of `scrut test` (which stream is recorded, whether CR LF survives,
 //! what `$VAR` expands to, which document time limit is in effect) and on the effective
-//! configuration that `-r json` prints for failing tests.
+//! configuration that `-r json` prints for failing tests. Documents may include other documents
+//! (front-matter `prepend:` / `append:`, command line `-P` / `-A`): the command-line layer holds for
+//! the included tests exactly as for the document's own tests.
 
 use std::collections::BTreeMap;
 use std::time::Duration;
@@ -65,6 +67,17 @@ impl Layer {
     }
 }
 
+/// a document that is run before / after the tests of the main document
+#[derive(Clone, Debug, Default, Serialize, Deserialize, PartialEq)]
+pub struct Include {
+    /// prepend-doc | append-doc (front-matter of the main document) | prepend-cli | append-cli (-P / -A)
+    pub how: String,
+    /// front-matter defaults of the included document itself (Markdown)
+    #[serde(default)]
+    pub defaults: Layer,
+    pub tests: Vec<Layer>,
+}
+
 #[derive(Clone, Debug, Serialize, Deserialize)]
 pub struct Case {
     /// md | cram
@@ -80,6 +93,18 @@ pub struct Case {
     pub doc_timeout_s: Option<u64>,
     pub defaults: Layer,
     pub tests: Vec<Layer>,
+    /// included documents (same format as the main document)
+    #[serde(default)]
+    pub includes: Vec<Include>,
+}
+
+/// one executed test: where it comes from and the layers below the command line
+struct Rec<'a> {
+    id: String,
+    /// "" for the document's own tests, else `included-{prepend,append}-{cli,doc}`
+    origin: String,
+    inline: &'a Layer,
+    defaults: &'a Layer,
 }
 
 fn gen_layer(rng: &mut Rng, tag: &str) -> Layer {
@@ -112,12 +137,22 @@ impl Monitor for C16e {
     fn plan(&self, tier: Tier) -> Plan {
         let mut p = Plan::new(
             tier.pick(200, 5000),
-            "e2e: Markdown (with and without --cram-compat) and Cram documents; command line flags {--combine-output, --no-combine-output, --keep-output-crlf, --no-keep-output-crlf, --timeout-seconds}, front-matter defaults and total_timeout, inline configuration per test, each key independently unset or set per layer, environment variables VA/VB/VC set in overlapping layers; every test prints its variables, writes O to stdout, E to stderr and a CR LF line and fails on purpose so that -r json shows the recorded output and the effective configuration; non-trivial = some key is set in >= 2 layers; distinct = per key the set of layers that set it x format",
+            "e2e: Markdown (with and without --cram-compat) and Cram documents; command line flags {--combine-output, --no-combine-output, --keep-output-crlf, --no-keep-output-crlf, --timeout-seconds}, front-matter defaults and total_timeout, inline configuration per test, documents included through front-matter prepend/append and through -P/-A (with their own front-matter defaults and inline configuration) whose tests are probed like the document's own, each key independently unset or set per layer, environment variables VA/VB/VC set in overlapping layers; every test prints its variables, writes O to stdout, E to stderr and a CR LF line and fails on purpose so that -r json shows the recorded output and the effective configuration; non-trivial = some key is set in >= 2 layers; distinct = per key the set of layers that set it x format",
         );
         p.chunk = 2;
         p.case_timeout_s = 120;
         p.floor_nontrivial = tier.pick(30, 300);
-        p.floor_buckets = vec![("e2e:tests-judged".into(), tier.pick(200, 5000)), ("e2e:doc-limit-judged".into(), tier.pick(20, 500))];
+        p.floor_buckets = vec![
+            ("e2e:tests-judged".into(), tier.pick(200, 5000)),
+            ("e2e:doc-limit-judged".into(), tier.pick(20, 500)),
+            ("e2e:included-tests-judged".into(), tier.pick(40, 1000)),
+            ("e2e:included:output_stream:cli-set".into(), tier.pick(20, 500)),
+            ("e2e:included:keep_crlf:cli-set".into(), tier.pick(20, 500)),
+            ("e2e:included-prepend-doc".into(), tier.pick(6, 150)),
+            ("e2e:included-append-doc".into(), tier.pick(6, 150)),
+            ("e2e:included-prepend-cli".into(), tier.pick(6, 150)),
+            ("e2e:included-append-cli".into(), tier.pick(6, 150)),
+        ];
         p
     }
 
@@ -126,53 +161,137 @@ impl Monitor for C16e {
         let md = format == "md";
         let n = 1 + rng.below(3);
         let cram_compat = md && rng.chance(1, 5);
+        // per-test configuration only where every test runs on its own (Markdown executor)
+        let layered = md && !cram_compat;
+        let mut includes = vec![];
+        if rng.chance(1, 2) {
+            for _ in 0..1 + rng.below(2) {
+                includes.push(Include {
+                    // Cram documents have no front-matter: only -P / -A can include there
+                    how: if md { rng.pick(&["prepend-doc", "append-doc", "prepend-cli", "append-cli"]).to_string() } else { rng.pick(&["prepend-cli", "append-cli"]).to_string() },
+                    defaults: if layered && rng.chance(1, 2) { gen_layer(rng, "i") } else { Layer::default() },
+                    tests: (0..1 + rng.below(2)).map(|i| if layered && rng.chance(1, 2) { gen_layer(rng, &format!("it{i}")) } else { Layer::default() }).collect(),
+                });
+            }
+        }
+        // the command-line layer is what included tests are probed for: set it more often then
+        let flag = |rng: &mut Rng, on: &str, off: &str, often: bool| -> String {
+            if often {
+                rng.pick(&["", on, on, off, off]).to_string()
+            } else {
+                rng.pick(&["", "", on, off]).to_string()
+            }
+        };
+        let often = !includes.is_empty();
         Case {
             cram_compat,
-            cli_combine: rng.pick(&["", "", "combine", "no-combine"]).to_string(),
-            cli_crlf: rng.pick(&["", "", "keep", "no-keep"]).to_string(),
+            cli_combine: flag(rng, "combine", "no-combine", often),
+            cli_crlf: flag(rng, "keep", "no-keep", often),
             cli_timeout_s: if rng.chance(1, 3) { Some(*rng.pick(&[60u64, 120, 1000, 0, 0])) } else { None },
             doc_timeout_s: if md && rng.chance(1, 2) { Some(*rng.pick(&[90u64, 300, 2000, 0])) } else { None },
             defaults: if md && rng.chance(2, 3) { gen_layer(rng, "d") } else { Layer::default() },
             // --cram-compat runs the document as one script, which requires one configuration for all tests
-            tests: (0..n).map(|i| if md && !cram_compat && rng.chance(2, 3) { gen_layer(rng, &format!("t{i}")) } else { Layer::default() }).collect(),
+            tests: (0..n).map(|i| if layered && rng.chance(2, 3) { gen_layer(rng, &format!("t{i}")) } else { Layer::default() }).collect(),
+            includes,
             format,
         }
     }
 
     fn check(&self, env: &Env, case: &Case) -> Checked {
         let md = case.format == "md";
-        if !md && (!case.defaults.is_empty() || case.tests.iter().any(|t| !t.is_empty()) || case.doc_timeout_s.is_some() || case.cram_compat) {
+        let inc_layers = case.includes.iter().any(|i| !i.defaults.is_empty() || i.tests.iter().any(|t| !t.is_empty()));
+        if !md && (!case.defaults.is_empty() || case.tests.iter().any(|t| !t.is_empty()) || case.doc_timeout_s.is_some() || case.cram_compat || inc_layers) {
             return Checked::out_of_scope("Cram documents carry no configuration");
         }
-        if case.cram_compat && case.tests.iter().any(|t| !t.is_empty()) {
+        if case.cram_compat && (case.tests.iter().any(|t| !t.is_empty()) || inc_layers) {
             return Checked::out_of_scope("--cram-compat needs one configuration for all tests of a document");
         }
+        if case.cram_compat && !case.includes.is_empty() && !case.defaults.is_empty() {
+            // the defaults of the main document do not reach included tests: the single script would be refused
+            return Checked::out_of_scope("--cram-compat needs one configuration for all tests, included ones too");
+        }
+        if case.includes.iter().any(|i| !matches!(i.how.as_str(), "prepend-doc" | "append-doc" | "prepend-cli" | "append-cli")) {
+            return Checked::out_of_scope("unknown kind of include");
+        }
         let sb = Sandbox::new(env, "c16e");
-        let cmd = "echo \"A=${VA-unset} B=${VB-unset} C=${VC-unset}\"; echo O; echo E >&2; printf 'x\\r\\n'";
-        let mut doc = String::new();
-        if md {
-            if !case.defaults.is_empty() || case.doc_timeout_s.is_some() {
-                doc.push_str("---\n");
-                if let Some(t) = case.doc_timeout_s {
-                    doc.push_str(&format!("total_timeout: {t}s\n"));
+        let ext = if md { "md" } else { "t" };
+        let command = |id: &str| format!(": {id}; echo \"A=${{VA-unset}} B=${{VB-unset}} C=${{VC-unset}}\"; echo O; echo E >&2; printf 'x\\r\\n'");
+        // renders one document; `doc_includes` = (prepend paths, append paths) named in its front-matter
+        let render = |defaults: &Layer, total_timeout: Option<u64>, tests: &[Layer], ids: &[String], prepend: &[String], append: &[String]| -> String {
+            let mut doc = String::new();
+            if md {
+                if !defaults.is_empty() || total_timeout.is_some() || !prepend.is_empty() || !append.is_empty() {
+                    doc.push_str("---\n");
+                    if let Some(t) = total_timeout {
+                        doc.push_str(&format!("total_timeout: {t}s\n"));
+                    }
+                    for (key, list) in [("prepend", prepend), ("append", append)] {
+                        if !list.is_empty() {
+                            doc.push_str(&format!("{key}:\n"));
+                            for p in list {
+                                doc.push_str(&format!("  - {p}\n"));
+                            }
+                        }
+                    }
+                    if !defaults.is_empty() {
+                        doc.push_str("defaults:\n");
+                        doc.push_str(&defaults.yaml_block("  "));
+                    }
+                    doc.push_str("---\n\n");
                 }
-                if !case.defaults.is_empty() {
-                    doc.push_str("defaults:\n");
-                    doc.push_str(&case.defaults.yaml_block("  "));
+                for (t, id) in tests.iter().zip(ids) {
+                    let cfg = if t.is_empty() { String::new() } else { format!(" {}", t.yaml_inline()) };
+                    doc.push_str(&format!("# test {id}\n\n```scrut{cfg}\n$ {}\nNEVER-PRINTED-LINE\n```\n\n", command(id)));
                 }
-                doc.push_str("---\n\n");
+            } else {
+                for id in ids {
+                    doc.push_str(&format!("test {id}\n\n  $ {}\n  NEVER-PRINTED-LINE\n\n", command(id)));
+                }
             }
-            for (i, t) in case.tests.iter().enumerate() {
-                let cfg = if t.is_empty() { String::new() } else { format!(" {}", t.yaml_inline()) };
-                doc.push_str(&format!("# test {i}\n\n```scrut{cfg}\n$ {cmd}\nNEVER-PRINTED-LINE\n```\n\n"));
+            doc
+        };
+        // the executed tests
+        let mut recs: Vec<Rec> = vec![];
+        let mut all_docs = String::new();
+        let (mut doc_prepend, mut doc_append, mut cli_prepend, mut cli_append) = (vec![], vec![], vec![], vec![]);
+        for (j, inc) in case.includes.iter().enumerate() {
+            let rel = format!("inc/i{j}.{ext}");
+            let ids: Vec<String> = (0..inc.tests.len()).map(|k| format!("i{j}t{k}")).collect();
+            let text = render(&inc.defaults, None, &inc.tests, &ids, &[], &[]);
+            sb.write_doc(&rel, text.as_bytes());
+            all_docs.push_str(&format!("--- {rel} ({}) ---\n{text}", inc.how));
+            match inc.how.as_str() {
+                "prepend-doc" => doc_prepend.push(rel),
+                "append-doc" => doc_append.push(rel),
+                "prepend-cli" => cli_prepend.push(rel),
+                _ => cli_append.push(rel),
             }
-        } else {
-            for (i, _) in case.tests.iter().enumerate() {
-                doc.push_str(&format!("test {i}\n\n  $ {cmd}\n  NEVER-PRINTED-LINE\n\n"));
+            let (place, by) = inc.how.split_once('-').unwrap_or(("prepend", "doc"));
+            for (k, t) in inc.tests.iter().enumerate() {
+                recs.push(Rec {
+                    id: ids[k].clone(),
+                    origin: format!("included-{place}-{by}"),
+                    inline: t,
+                    defaults: &inc.defaults,
+                });
             }
         }
-        let file = if md { "doc.md" } else { "doc.t" };
-        sb.write_doc(file, doc.as_bytes());
+        if !md && (!doc_prepend.is_empty() || !doc_append.is_empty()) {
+            return Checked::out_of_scope("Cram documents have no front-matter to name includes");
+        }
+        let own_ids: Vec<String> = (0..case.tests.len()).map(|i| format!("m{i}")).collect();
+        for (i, t) in case.tests.iter().enumerate() {
+            recs.push(Rec {
+                id: own_ids[i].clone(),
+                origin: String::new(),
+                inline: t,
+                defaults: &case.defaults,
+            });
+        }
+        let doc = render(&case.defaults, case.doc_timeout_s, &case.tests, &own_ids, &doc_prepend, &doc_append);
+        let file = format!("doc.{ext}");
+        sb.write_doc(&file, doc.as_bytes());
+        all_docs.push_str(&format!("--- {file} ---\n{doc}"));
         let mut c = ScrutCmd::new(&sb, &["test", "-r", "json"]);
         if case.cram_compat {
             c = c.arg("--cram-compat");
@@ -190,75 +309,144 @@ impl Monitor for C16e {
         if let Some(t) = case.cli_timeout_s {
             c = c.arg("--timeout-seconds").arg(t.to_string());
         }
-        let run = c.arg(file).watchdog(Duration::from_secs(60)).run(env);
+        // -P / -A take any number of values: the document comes first
+        c = c.arg(file.clone());
+        if !cli_prepend.is_empty() {
+            c = c.arg("-P");
+            for p in &cli_prepend {
+                c = c.arg(p.clone());
+            }
+        }
+        if !cli_append.is_empty() {
+            c = c.arg("-A");
+            for p in &cli_append {
+                c = c.arg(p.clone());
+            }
+        }
+        let run = c.watchdog(Duration::from_secs(60)).run(env);
         if run.watchdog_fired {
             return Checked::inconclusive("watchdog");
         }
-        let ctx = |what: String| format!("{what}\nargs: cram_compat={} cli_combine={:?} cli_crlf={:?} cli_timeout={:?}\n--- document ({file}) ---\n{doc}", case.cram_compat, case.cli_combine, case.cli_crlf, case.cli_timeout_s);
+        let ctx = |what: String| format!("{what}\nargs: cram_compat={} cli_combine={:?} cli_crlf={:?} cli_timeout={:?} -P {cli_prepend:?} -A {cli_append:?}\n{all_docs}", case.cram_compat, case.cli_combine, case.cli_crlf, case.cli_timeout_s);
+        let cli_stream = match case.cli_combine.as_str() {
+            "combine" => "combined",
+            "no-combine" => "stdout",
+            _ => "",
+        };
+        let cli_crlf = match case.cli_crlf.as_str() {
+            "keep" => "true",
+            "no-keep" => "false",
+            _ => "",
+        };
         if run.code != Some(50) {
-            return Checked::inconclusive(ctx(format!("expected exit 50 (all tests fail on purpose), got {:?}: {}", run.code, run.stderr_str().lines().take(4).collect::<Vec<_>>().join(" | "))));
+            // one script for all tests (Cram, --cram-compat): included tests that miss the command-line
+            // layer make the configuration inconsistent and the run is refused
+            let err = run.stderr_str();
+            if !case.includes.is_empty() && (!md || case.cram_compat) {
+                for (key, cli) in [("output_stream", cli_stream), ("keep_crlf", cli_crlf)] {
+                    if !cli.is_empty() && err.contains(&format!("inconsistent configuration value for {key}")) {
+                        return Checked::violated(
+                            format!("C16/e2e/{key}//set-by=C/included-script-refused"),
+                            ctx(format!("the command line sets {key}={cli} for every test of the run, yet scrut reports differing values: {}", err.lines().rev().take(4).collect::<Vec<_>>().join(" | "))),
+                        );
+                    }
+                }
+            }
+            return Checked::inconclusive(ctx(format!("expected exit 50 (all tests fail on purpose), got {:?}: {}", run.code, err.lines().take(4).collect::<Vec<_>>().join(" | "))));
         }
         let outcomes = match run.json() {
             Ok(o) => o,
             Err(e) => return Checked::inconclusive(ctx(e)),
         };
-        if outcomes.len() != case.tests.len() {
-            return Checked::inconclusive(ctx(format!("{} outcomes for {} tests", outcomes.len(), case.tests.len())));
+        if outcomes.len() != recs.len() {
+            return Checked::inconclusive(ctx(format!("{} outcomes for {} tests", outcomes.len(), recs.len())));
         }
         let cram_defaults = !md || case.cram_compat;
+        let first_is_own = cli_prepend.is_empty() && doc_prepend.is_empty();
         let mut layers_per_key: Vec<String> = vec![];
         let mut multi_layer = false;
         let mut ck = Checked::held();
-        for (i, (t, o)) in case.tests.iter().zip(outcomes.iter()).enumerate() {
-            let cli_stream = match case.cli_combine.as_str() {
-                "combine" => "combined",
-                "no-combine" => "stdout",
-                _ => "",
+        for r in &recs {
+            let (i, t) = (&r.id, r.inline);
+            let marker = format!(": {}; ", r.id);
+            let Some(o) = outcomes.iter().find(|o| o["testcase"]["shell_expression"].as_str().is_some_and(|s| s.starts_with(&marker))) else {
+                return Checked::inconclusive(ctx(format!("no outcome for test {i}")));
             };
-            let cli_crlf = match case.cli_crlf.as_str() {
-                "keep" => "true",
-                "no-keep" => "false",
-                _ => "",
-            };
+            let included = !r.origin.is_empty();
+            let place = if included { r.origin.clone() } else { case.format.clone() };
             let fmt_stream = if cram_defaults { "combined" } else { "stdout" };
             let fmt_crlf = if cram_defaults { "true" } else { "false" };
-            let eff_stream = first_set(&[cli_stream, &t.output_stream, &case.defaults.output_stream, fmt_stream]);
-            let eff_crlf = first_set(&[cli_crlf, &t.keep_crlf, &case.defaults.keep_crlf, fmt_crlf]);
+            let eff_stream = first_set(&[cli_stream, &t.output_stream, &r.defaults.output_stream, fmt_stream]);
+            let eff_crlf = first_set(&[cli_crlf, &t.keep_crlf, &r.defaults.keep_crlf, fmt_crlf]);
             let setters = |a: &str, b: &str, c: &str| format!("{}{}{}", if a.is_empty() { "" } else { "C" }, if b.is_empty() { "" } else { "T" }, if c.is_empty() { "" } else { "D" });
-            let s1 = setters(cli_stream, &t.output_stream, &case.defaults.output_stream);
-            let s2 = setters(cli_crlf, &t.keep_crlf, &case.defaults.keep_crlf);
+            let s1 = setters(cli_stream, &t.output_stream, &r.defaults.output_stream);
+            let s2 = setters(cli_crlf, &t.keep_crlf, &r.defaults.keep_crlf);
             if s1.len() >= 2 || s2.len() >= 2 {
                 multi_layer = true;
             }
-            layers_per_key.push(format!("s:{s1},c:{s2}"));
+            layers_per_key.push(format!("{}s:{s1},c:{s2}", if included { "i" } else { "" }));
             let stdout = o["output"]["stdout"].as_str().unwrap_or("");
             let stderr = o["output"]["stderr"].as_str().unwrap_or("");
             if !stdout.contains("O\n") {
                 return Checked::inconclusive(ctx(format!("test {i}: recorded stdout lacks the probe line: {stdout:?}")));
             }
+            // Guard: which document's `defaults` govern an included test is not settled by the statement
+            // (scrut applies the included document's defaults when parsing, and the including document's
+            // defaults again in the executor for keys that are still unset). A key of an included test
+            // that only the including document's defaults set is therefore not judged.
+            let only_main = |s: &str, main: &str| included && s.is_empty() && !main.is_empty();
+            let skip_stream = only_main(&s1, &case.defaults.output_stream);
+            let skip_crlf = only_main(&s2, &case.defaults.keep_crlf);
+            if skip_stream {
+                ck = ck.bucket("e2e:included:unjudged:output_stream-only-in-including-defaults");
+            }
+            if skip_crlf {
+                ck = ck.bucket("e2e:included:unjudged:keep_crlf-only-in-including-defaults");
+            }
             // (1) stream: `combined` merges E into the recorded stdout, otherwise E is on stderr
             let merged = stdout.contains("E\n");
             let want_merged = eff_stream == "combined";
-            if merged != want_merged {
+            if !skip_stream && merged != want_merged {
                 return Checked::violated(
-                    format!("C16/e2e/output_stream//set-by={s1}/{}", case.format),
-                    ctx(format!("test {i}: effective output_stream should be {eff_stream} (cli={cli_stream:?} test={:?} defaults={:?} format={fmt_stream}), but stderr was {}merged into stdout: stdout={stdout:?} stderr={stderr:?}", t.output_stream, case.defaults.output_stream, if merged { "" } else { "not " })),
+                    format!("C16/e2e/output_stream//set-by={s1}/{place}"),
+                    ctx(format!("test {i}: effective output_stream should be {eff_stream} (cli={cli_stream:?} test={:?} defaults of its document={:?} format={fmt_stream}), but stderr was {}merged into stdout: stdout={stdout:?} stderr={stderr:?}", t.output_stream, r.defaults.output_stream, if merged { "" } else { "not " })),
                 );
             }
             // (2) CR LF
             let kept = stdout.contains("x\r\n");
             let want_kept = eff_crlf == "true";
-            if kept != want_kept {
+            if !skip_crlf && kept != want_kept {
                 return Checked::violated(
-                    format!("C16/e2e/keep_crlf//set-by={s2}/{}", case.format),
-                    ctx(format!("test {i}: effective keep_crlf should be {eff_crlf} (cli={cli_crlf:?} test={:?} defaults={:?} format={fmt_crlf}), recorded stdout={stdout:?}", t.keep_crlf, case.defaults.keep_crlf)),
+                    format!("C16/e2e/keep_crlf//set-by={s2}/{place}"),
+                    ctx(format!("test {i}: effective keep_crlf should be {eff_crlf} (cli={cli_crlf:?} test={:?} defaults of its document={:?} format={fmt_crlf}), recorded stdout={stdout:?}", t.keep_crlf, r.defaults.keep_crlf)),
                 );
             }
-            // (3) environment variables, each individually. Only the first test is judged: later tests also
-            // inherit what earlier tests exported (shell state carries over, property C12), which would
-            // shadow the configured value.
-            if i > 0 {
-                ck = ck.bucket("e2e:tests-judged").bucket(format!("e2e:stream-set-by:{s1}")).bucket(format!("e2e:crlf-set-by:{s2}"));
+            // (4) the configuration printed by -r json, where present, must agree
+            let cfg = &o["testcase"]["config"];
+            if let Some(s) = cfg["output_stream"].as_str() {
+                if !skip_stream && s != eff_stream {
+                    return Checked::violated(format!("C16/e2e/json-config/output_stream//set-by={s1}/{place}"), ctx(format!("test {i}: reported output_stream {s}, effective {eff_stream}")));
+                }
+            }
+            if let Some(b) = cfg["keep_crlf"].as_bool() {
+                if !skip_crlf && b.to_string() != eff_crlf {
+                    return Checked::violated(format!("C16/e2e/json-config/keep_crlf//set-by={s2}/{place}"), ctx(format!("test {i}: reported keep_crlf {b}, effective {eff_crlf}")));
+                }
+            }
+            ck = ck.bucket("e2e:tests-judged").bucket(format!("e2e:stream-set-by:{s1}")).bucket(format!("e2e:crlf-set-by:{s2}"));
+            if included {
+                ck = ck.bucket("e2e:included-tests-judged").bucket(format!("e2e:{}", r.origin));
+                if !cli_stream.is_empty() {
+                    ck = ck.bucket("e2e:included:output_stream:cli-set");
+                }
+                if !cli_crlf.is_empty() {
+                    ck = ck.bucket("e2e:included:keep_crlf:cli-set");
+                }
+            }
+            // (3) environment variables, each individually. Only the first executed test is judged, and only
+            // when it is the document's own first test: later tests also inherit what earlier tests exported
+            // (shell state carries over, property C12), which would shadow the configured value.
+            if !(first_is_own && r.id == "m0") {
                 continue;
             }
             let mut want = String::new();
@@ -278,19 +466,7 @@ impl Monitor for C16e {
                     ctx(format!("test {i}: variables seen by the command: {got:?}, expected {want:?} (test {:?}, defaults {:?})", t.env, case.defaults.env)),
                 );
             }
-            // (4) the configuration printed by -r json, where present, must agree
-            let cfg = &o["testcase"]["config"];
-            if let Some(s) = cfg["output_stream"].as_str() {
-                if s != eff_stream {
-                    return Checked::violated(format!("C16/e2e/json-config/output_stream//set-by={s1}"), ctx(format!("test {i}: reported output_stream {s}, effective {eff_stream}")));
-                }
-            }
-            if let Some(b) = cfg["keep_crlf"].as_bool() {
-                if b.to_string() != eff_crlf {
-                    return Checked::violated(format!("C16/e2e/json-config/keep_crlf//set-by={s2}"), ctx(format!("test {i}: reported keep_crlf {b}, effective {eff_crlf}")));
-                }
-            }
-            ck = ck.bucket("e2e:tests-judged").bucket(format!("e2e:stream-set-by:{s1}")).bucket(format!("e2e:crlf-set-by:{s2}"));
+            ck = ck.bucket("e2e:environment-judged");
         }
         // (5) document time limit: command line > front-matter > default 900 s (hook event; Markdown executor only)
         if md && !case.cram_compat {
@@ -312,7 +488,8 @@ impl Monitor for C16e {
             }
             ck = ck.bucket("e2e:doc-limit-judged");
         }
-        let shape = hash_str(&format!("{}|{}|{}|{:?}|{:?}", case.format, case.cram_compat, layers_per_key.join(";"), case.cli_timeout_s.is_some(), case.doc_timeout_s.is_some()));
+        let hows: Vec<&str> = case.includes.iter().map(|i| i.how.as_str()).collect();
+        let shape = hash_str(&format!("{}|{}|{}|{:?}|{:?}|{hows:?}", case.format, case.cram_compat, layers_per_key.join(";"), case.cli_timeout_s.is_some(), case.doc_timeout_s.is_some()));
         ck.shape(multi_layer, shape)
     }
 
@@ -333,6 +510,30 @@ impl Monitor for C16e {
                     v.push(c);
                 }
             };
+        }
+        for j in 0..case.includes.len() {
+            let mut c = case.clone();
+            c.includes.remove(j);
+            v.push(c);
+            if case.includes[j].tests.len() > 1 {
+                for k in 0..case.includes[j].tests.len() {
+                    let mut c = case.clone();
+                    c.includes[j].tests.remove(k);
+                    v.push(c);
+                }
+            }
+            if !case.includes[j].defaults.is_empty() {
+                let mut c = case.clone();
+                c.includes[j].defaults = Layer::default();
+                v.push(c);
+            }
+            for k in 0..case.includes[j].tests.len() {
+                if !case.includes[j].tests[k].is_empty() {
+                    let mut c = case.clone();
+                    c.includes[j].tests[k] = Layer::default();
+                    v.push(c);
+                }
+            }
         }
         clear!(cli_combine, String::new());
         clear!(cli_crlf, String::new());
@@ -372,6 +573,7 @@ impl Monitor for C16e {
 
     fn sample(&self, case: &Case) -> Value {
         json!({"format": case.format, "cram_compat": case.cram_compat, "cli": [case.cli_combine, case.cli_crlf, case.cli_timeout_s], "front_matter_total_timeout_s": case.doc_timeout_s,
-               "defaults": case.defaults.yaml_inline(), "tests": case.tests.iter().map(|t| t.yaml_inline()).collect::<Vec<_>>()})
+               "defaults": case.defaults.yaml_inline(), "tests": case.tests.iter().map(|t| t.yaml_inline()).collect::<Vec<_>>(),
+               "includes": case.includes.iter().map(|i| json!({"how": i.how, "defaults": i.defaults.yaml_inline(), "tests": i.tests.iter().map(|t| t.yaml_inline()).collect::<Vec<_>>()})).collect::<Vec<_>>()})
     }
 }
